@@ -51,6 +51,8 @@ class Recording(progs.RealExec):
 
 
 def oracle(prog, idx):
+    if not prog or prog[-1][0] != "back":
+        return []
     fails = []
     ex = Recording()
     # caller-owned index arrays, masks and seeds go through key_to_py / back: wrap them
@@ -201,7 +203,7 @@ def nontrivial(prog):
 
 
 def run(ctx: Ctx) -> Outcome:
-    n = ctx.n(500, 6000)
+    n = ctx.n(1000, 6000)
     out, results = engcheck.run_programs(ctx, n, dict(GEN, n_stmts=ctx.n(9, 16)), "oracle", nontrivial)
     out.rule = ("random programs: checksums of every caller-owned array (ndarray operands, index arrays, masks, seed) and of "
                 "every tensor's data around every statement and around backward; pairwise shares_memory of all stored "
